@@ -18,7 +18,10 @@ IDENT_POOL = ['a', 'b', 'c', 'x', 'y', 'z', 'foo', 'bar', 'i', 'j', 'k', 'n', 'o
 UNICODE_IDENTS = ['é', 'ñandú', 'λ', 'Привет', '变量', 'aé', 'ª', 'ǅ', 'ʰx', 'xé', 'x٠', 'x‿y', 'ℵ',
                   # a letter after a digit, ZWNJ / ZWJ, unicode escape sequences (7.6)
                   'x1\u00e9', 'a\u200c', 'a\u200db', '\\u0061bc', 'a\\u0062', 'x\\u0030', '\\u00e9t\\u00e9',
-                  'x\u0301y', '$\u00e9', '_\\u200c']
+                  'x\u0301y', '$\u00e9', '_\\u200c',
+                  # text that is not in a Unicode normal form (base letter + combining mark, conjoining jamo): a
+                  # program is the sequence of characters it is given as
+                  'an\u0303o', 'cafe\u0301', '\u1112\u1161\u11ab', 'A\u030a', 'o\u0302\u0323']
 NUMBERS = ['0', '1', '2', '7', '10', '42', '100', '255', '1.5', '0.5', '.5', '5.', '1e3', '1E3', '1e+3', '1e-3',
            '1.5e10', '.5e1', '5.e1', '0x0', '0x1F', '0XaB', '0xdeadBEEF', '3.14159', '9007199254740993',
            '0.0', '0e0', '123456789012345678901234567890']
@@ -31,7 +34,8 @@ STRINGS = ['""', "''", '"a"', "'a'", '"hello world"', "'it\\'s'", '"say \\"hi\\"
            '"\\b\\f\\v"', '"é"', "'变'", '"a\'b"', "'a\"b'", '"\\/"', "'\\q'", '"use strict"', "' '", '";"',
            '"}"', "'{'", '"</script>"',
            # characters outside the basic plane (one character of the text, two UTF-16 units, four UTF-8 bytes)
-           '"\U0001F600"', "'a\U0001F600b\U00010000c'", '"\U0001D11E \U0001D11E"']
+           '"\U0001F600"', "'a\U0001F600b\U00010000c'", '"\U0001D11E \U0001D11E"',
+           '"cafe\u0301"', "'re\u0301sume\u0301 \u1112\u1161\u11ab \u212b'"]
 STRINGS_CONT = ['"a\\\nb"', "'a\\\r\nb'", '"x\\\ry"', '"p\\\u2028q"', "'\\\n'",
                 # several line terminators inside one token
                 '"a\\\nb\\\nc"', "'\\\n\\\r\n\\\rx'", '"l1\\\u2029l2\\\nl3\\\r\nl4"',
@@ -788,7 +792,7 @@ def render(tokens, style='space', rng=None, lt=None, comments=False):
                         (' ' * rng.randint(0, 4) if rng.random() < 0.5 else '')
                 elif comments and r < 0.95:
                     sep = rng.choice([' /* c%d */ ', '/*c%d*/', '/* c%d  */', '/** c%d **/', ' /*%d // */ ',
-                                      '/*\U0001F600%d\U0001F600*/', '/*/ %d */', '/*/%d*/', '/***%d***/']) % i \
+                                      '/*\U0001F600%d\U0001F600*/', '/*/ %d */', '/*/%d*/', '/***%d***/', '/* re\u0301sume\u0301 %d */']) % i \
                         if rng.random() < 0.6 else rng.choice(['/*m%d%s*/', '/**%s * m%d%s */', '/*%s%s%s m%d */', '/* f\x0cf m%d%s v\x0bv%s \x85 */',
                                                                '/*\x1c%s\x1d m%d \x1e%s*/']).replace(
                             '%s', lt).replace('%d', str(i))
